@@ -53,7 +53,7 @@ ASSUMPTIONS = [
     "already took its nearest unclaimed entry, so it refuses later suitors); classes tail_cut* construct exactly this",
 ]
 
-CLASSES = ["random_cluster", "line_mid_start", "prefix_cut", "prefix_reject", "prefix_first", "heads_compete", "suffix_reject_fork",
+CLASSES = ["random_cluster", "late_suitors", "candidate_forest", "line_mid_start", "prefix_cut", "prefix_reject", "prefix_first", "heads_compete", "suffix_reject_fork",
            "suffix_after_cut", "both_sides_nocut", "both_sides_cut", "both_sides_reject", "bend_back_after_cut", "tail_cut", "tail_cut_after_join", "tail_cut_with_join", "same_target_single",
            "same_chain_bridge", "closed_ring", "min_distance_shell", "tomo_overlap", "odd_ids_index", "zero_displacement", "tiny"]
 
@@ -81,7 +81,7 @@ REACH = ["reach:%s.%s" % (a, b) for a, br in ANCHORS.items() for b in br if "%s.
 def plan(tier):
     reach = {r: 1 for r in REACH}
     if tier == "quick":
-        n = len(CLASSES) * 16
+        n = len(CLASSES) * 14
         me = {c: 300 for c in CLAUSES}
         me.update({"truth_chains": 300, "trivial_pairs": 300})
         me.update(reach)
@@ -570,6 +570,65 @@ def g_cluster(sc, v, n, zero_disp=False):
     return rows, "cluster%d" % n
 
 
+def g_suitors(sc, v, n):
+    """hub explorer (no intended link set): a short line, then late pieces whose rows come later - a chain stealing the successor
+    of a hub (turns the hub into a chain end), late suitors for a hub's exit (farther / closer than its partner), late chains
+    arriving at a hub's entry, bridges between hubs."""
+    rng = sc.rng
+    rows = sc.fwd(np.zeros(3), _rand_unit(rng), int(rng.integers(2, 5)))
+    hubs = [int(rng.integers(0, len(rows)))]
+
+    def nearest_entry(t):
+        d = np.linalg.norm(np.array(sc.E) - sc.X[t], axis=1)
+        d[t] = np.inf
+        ok = (d > sc.m) & (d <= sc.D)
+        return (int(np.argmin(np.where(ok, d, np.inf))), float(d[ok].min())) if ok.any() else (None, None)
+
+    while len(sc.E) < n:
+        if rng.random() < 0.7:
+            tgt = hubs[int(rng.integers(0, len(hubs)))]
+        else:
+            tgt = int(rng.integers(0, len(sc.E)))
+            hubs.append(tgt)
+        r, k, before = rng.random(), int(rng.integers(1, 3)), len(sc.E)
+        y, dy = nearest_entry(tgt)
+        if r < 0.35 and y is not None:
+            sc.attach_in(y, sc.m + (dy - sc.m) * float(rng.uniform(0.1, 0.9)), _rand_unit(rng), k)
+        elif r < 0.75:
+            lo = dy if (y is not None and rng.random() < 0.7) else sc.m
+            sc.attach_out(tgt, lo + (sc.D - lo) * float(rng.uniform(0.05, 0.98)), _rand_unit(rng), k, body=_rand_unit(rng))
+            if rng.random() < 0.4:
+                hubs.append(len(sc.E) - 1)
+        elif r < 0.9:
+            sc.attach_in(tgt, sc.frac(0.02, 0.99), _rand_unit(rng), k)
+        else:
+            sc.bridge(tgt, sc.frac(0.02, 0.99), hubs[int(rng.integers(0, len(hubs)))], sc.frac(0.02, 0.99), _rand_unit(rng), k)
+        new = list(range(before, len(sc.E)))
+        rows += new[::-1] if rng.random() < 0.5 else new
+    return rows, "suitors%d/hubs%d" % (len(rows), len(set(hubs)))
+
+
+def g_forest(sc, v, n):
+    """random bipartite candidate forest over n entry sites and n exit sites (tree edges in range), sites paired into particles at random."""
+    rng = sc.rng
+    Ep, Xp, pts, origin = [], [], [], np.zeros(3)
+    while len(Ep) < n or len(Xp) < n:
+        need_e, need_x = n - len(Ep), n - len(Xp)
+        cand = [q for q in pts if (q[0] == "X" and need_e) or (q[0] == "E" and need_x)]
+        if not cand or rng.random() < 0.12:
+            origin = origin + np.array([6 * sc.D, 0.0, 0.0]) + rng.normal(size=3) * sc.D
+            t, pos, pts = ("E" if (need_e and (not need_x or rng.random() < 0.5)) else "X"), origin.copy(), []
+        else:
+            par = cand[int(rng.integers(0, len(cand)))] if rng.random() < 0.6 else cand[-1]
+            t = "E" if par[0] == "X" else "X"
+            pos = par[1] + sc.frac(0.02, 0.99) * _rand_unit(rng)
+        pts.append((t, pos))
+        (Ep if t == "E" else Xp).append(pos)
+    pe, px = rng.permutation(n), rng.permutation(n)
+    rows = [sc.raw(Ep[int(a)], Xp[int(b)]) for a, b in zip(pe, px)]
+    return rows, "forest%d" % n
+
+
 GADGETS = {
     "line_mid_start": g_line,
     "prefix_cut": lambda sc, v: g_prefix(sc, v, "cut"),
@@ -704,7 +763,21 @@ def gen(ctx, i, cls):
             names = []
         else:
             names = []
-        if cls in ("random_cluster", "zero_displacement"):
+        if cls in ("late_suitors", "candidate_forest"):
+            designed = False
+            left = min(60, max(4, budget))
+            for t in range(ntomo):
+                nn = left if t == ntomo - 1 else int(rng.integers(2, max(3, left - 2 * (ntomo - 1 - t) + 1)))
+                nn = max(2, min(nn, left - 2 * (ntomo - 1 - t)))
+                sc = Scene(rng, D, m)
+                rows, tag = (g_suitors if cls == "late_suitors" else g_forest)(sc, v, nn)
+                rows = rows[:nn]
+                parts.append((np.array(sc.E)[rows], np.array(sc.X)[rows], list(range(len(rows))), tag))
+                left -= len(rows)
+                if left < 2:
+                    break
+            ntomo = len(parts)
+        elif cls in ("random_cluster", "zero_displacement"):
             designed = False
             if cls == "zero_displacement" and rng.random() < 0.5:
                 D, m = float(rng.choice([10000.0, 500.0])), 0.0
